@@ -112,7 +112,9 @@ CLAIMED = {
                  'hypothesis is discharged for every step the resolver model can take (C12_step_keys: any base graph, '
                  'templates with distinct keys and closed bonds, any recorded aromaticity answer — through instantiation, '
                  'bond creation, squashing, hydrogen completion, sorting, stereo annotation and naming the keys of a '
-                 'successful step are exactly 0..n-1). '
+                 'successful step are exactly 0..n-1), and so is the order of the numbering (C12_step_order / C12_step_blocks: in the '
+                 'fine graph of every successful step a node whose membership list is lexicographically smaller has the smaller key, '
+                 'so the atoms of coarse node k precede those of k\' > k, hydrogens included). '
                  'Process-level determinism (hash seeds, call histories sharing libraries, constructors, permuted '
                  'definitions, non-mutation) cannot be exhibited by a pure model and is validated by requiring every '
                  'call of every explored history / hash seed to equal the pure model (partial by nature).'),
